@@ -269,4 +269,126 @@ theorem set_succeeds {s : State} (inv : Inv s) {h : Nat} (hlt : h < s.hs.length)
   rw [e] at sem
   exact ⟨s', v, e, sem.1, sem.2.2.1, sem.2.2.2⟩
 
+theorem ownsB_own {s : State} {h : Nat} {t : Option Traits} (e : ownsB s h t = true) :
+    ∃ b x, Own s h b x ∧ x.traits = t := by
+  unfold ownsB at e
+  cases hh : s.handle h with
+  | none => rw [hh] at e; simp at e
+  | some b =>
+    rw [hh] at e
+    simp only [Option.bind_some] at e
+    cases hb : s.buf? b with
+    | none => rw [hb] at e; simp at e
+    | some x =>
+      rw [hb] at e
+      simp only [Bool.and_eq_true, decide_eq_true_eq, Bool.not_eq_true'] at e
+      exact ⟨b, x, ⟨hh, hb, e.1.1, e.1.2⟩, e.2⟩
+
+theorem freeB_free {s : State} {h : Nat} {t : Option Traits} (e : freeB s h t = true) : Free s h t := by
+  unfold freeB at e
+  simp only [Bool.or_eq_true, Option.isNone_iff_eq_none] at e
+  rcases e with e | e
+  · exact Or.inl e
+  · exact Or.inr (ownsB_own e)
+
+/-- a cut inside the data of an own, writable, untyped buffer is not refused -/
+theorem cut_not_refused {s : State} (inv : Inv s) {h b : Nat} {x : Buf} (o : Own s h b x) (xt : x.traits = none)
+    (off len : Nat) (inr : Vec.cut (s.abs h) off len ≠ none) (s' : State) (e : Fail) :
+    cutOp s h off len ≠ .fail s' e := by
+  have hu := inv.used b x o.hb
+  have absx : s.abs h = x.content := State.abs_of o.hh o.hb
+  have hp : PlainT x.traits := by rw [xt]; exact PlainT.none
+  have nf := ensure_own_no_fail o hp true x.used
+  have es := ensure_sem inv o.hh o.hb true x.used (by intro e; cases e)
+  unfold cutOp
+  rw [o.hh]
+  simp only
+  rw [o.hb]
+  simp only
+  generalize hr : ensure s h b true x.used = r at es nf
+  cases r with
+  | fault w => simp
+  | fail s1 e1 => exact absurd rfl (nf s1 e1)
+  | ok s1 nb =>
+    simp only
+    have dp : DetachPost s h x x.used s1 nb := es
+    obtain ⟨z, hz, zr, zi, zs, zt, zu, zc⟩ := dp.keeps hu (Nat.le_refl _)
+    have cl := content_length x hu
+    rw [absx] at inr
+    unfold Vec.cut at inr
+    rw [cl] at inr
+    unfold bufferCut
+    rw [hz]
+    simp only [zt, xt, zu]
+    by_cases l0 : len = 0
+    · subst l0
+      simp only [if_true] at inr
+      have : off ≤ x.used := by
+        by_cases c : off ≤ x.used
+        · exact c
+        · rw [if_neg c] at inr; exact absurd rfl inr
+      rw [if_neg (by omega), if_neg (by omega)]
+      simp only [if_true]
+      rw [if_neg (by omega)]
+      simp
+    · simp only [l0, if_false] at inr
+      have : off + len ≤ x.used := by
+        by_cases c : off + len ≤ x.used
+        · exact c
+        · rw [if_neg c] at inr; exact absurd rfl inr
+      rw [if_neg (by omega), if_neg (by omega)]
+      simp only [l0, if_false]
+      rw [if_neg (by omega)]
+      simp
+
+theorem cut_succeeds {s : State} (inv : Inv s) {h : Nat} (hlt : h < s.hs.length) {b : Nat} {x : Buf} (o : Own s h b x)
+    (xt : x.traits = none) (off len : Nat) (inr : Vec.cut (s.abs h) off len ≠ none) :
+    ∃ s' v, cutOp s h off len = .ok s' v ∧ Inv s' ∧ Vec.cut (s.abs h) off len = some (s'.abs h) ∧
+      ∀ h', h' ≠ h → s'.abs h' = s.abs h' := by
+  have sem := cut_sem inv (h := h) off len
+  obtain ⟨s', v, e⟩ := ok_of_sem sem (cut_not_refused inv o xt off len inr)
+  rw [e] at sem
+  exact ⟨s', v, e, sem.1, sem.2.2.1, sem.2.2.2⟩
+
+/-- the operations `mustSucceed` names are not refused by the model -/
+theorem mustSucceed_ok {s : State} (inv : Inv s) (op : Op) (wf : op.wf s.hs.length)
+    (m : mustSucceed s op (s.abs op.handle) = true) : ∃ s', exec s op = .ok s' () := by
+  cases op with
+  | append h bytes =>
+    have hlt : h < s.hs.length := Op.handle_lt wf
+    change freeB s h none = true at m
+    obtain ⟨s', v, e, _⟩ := append_succeeds inv hlt (freeB_free m) bytes
+    exact ⟨s', by simp only [exec, e, Out.mapv]⟩
+  | insert h pos bytes =>
+    have hlt : h < s.hs.length := Op.handle_lt wf
+    change freeB s h none = true at m
+    obtain ⟨s', v, e, _⟩ := insert_succeeds inv hlt (freeB_free m) pos bytes
+    exact ⟨s', by simp only [exec, e, Out.mapv]⟩
+  | set h t off bytes hasSrc =>
+    have hlt : h < s.hs.length := Op.handle_lt wf
+    change ((!t.init && t.fini.isNone && decide (t.size ≠ 0)) && freeB s h (some t) && decide (bytes.length % t.size = 0) &&
+      (Vec.setAt (s.abs h) t.size off bytes).isSome) = true at m
+    simp only [Bool.and_eq_true, Bool.not_eq_true', decide_eq_true_eq, Option.isNone_iff_eq_none] at m
+    obtain ⟨⟨⟨⟨⟨ti, tf⟩, tz⟩, fr⟩, whole⟩, inr⟩ := m
+    have pt : PlainT (some t) := by
+      intro y hy; cases hy; exact ⟨ti, tf, tz⟩
+    obtain ⟨s', v, e, _⟩ := set_succeeds inv hlt t pt (freeB_free fr) bytes hasSrc off whole
+      (by intro c; rw [c] at inr; simp at inr)
+    exact ⟨s', by simp only [exec, e, Out.mapv]⟩
+  | cut h off len =>
+    have hlt : h < s.hs.length := Op.handle_lt wf
+    change (ownsB s h none && (Vec.cut (s.abs h) off len).isSome) = true at m
+    simp only [Bool.and_eq_true] at m
+    obtain ⟨b, x, o, xt⟩ := ownsB_own m.1
+    obtain ⟨s', v, e, _⟩ := cut_succeeds inv hlt o xt off len
+      (by intro c; have := m.2; rw [c] at this; simp at this)
+    exact ⟨s', by simp only [exec, e, Out.mapv]⟩
+  | slice h off len => simp [mustSucceed] at m
+  | bset h pos bytes hasSrc => simp [mustSucceed] at m
+  | clone d src => simp [mustSucceed] at m
+  | drop h => simp [mustSucceed] at m
+  | detach h n => simp [mustSucceed] at m
+  | reduce h => simp [mustSucceed] at m
+  | reserve h n t => simp [mustSucceed] at m
+
 end Mpt.Heap
